@@ -36,12 +36,29 @@ const (
 	kvBuilderValue = 1 //nolint
 )
 
+// A map key that was given as a local reference. The key is known once the
+// marker it refers to has been seen, which may be after the entry's value.
+type mapKeyReference struct {
+	key        reflect.Value
+	isResolved bool
+	onResolved func(key reflect.Value)
+}
+
+func (_this *mapKeyReference) whenResolved(useKey func(key reflect.Value)) {
+	if _this.isResolved {
+		useKey(_this.key)
+	} else {
+		_this.onResolved = useKey
+	}
+}
+
 type mapBuilder struct {
 	mapType         reflect.Type
 	kvTypes         [2]reflect.Type
 	kvGenerators    [2]BuilderGenerator
 	container       reflect.Value
 	key             reflect.Value
+	keyReference    *mapKeyReference
 	builderIndex    int
 	nextGenerator   BuilderGenerator
 	nextStoreMethod func(*mapBuilder, reflect.Value)
@@ -71,9 +88,17 @@ func (_this *mapBuilder) String() string {
 
 func (_this *mapBuilder) storeKey(value reflect.Value) {
 	_this.key = value
+	_this.keyReference = nil
 }
 
 func (_this *mapBuilder) storeValue(value reflect.Value) {
+	if keyReference := _this.keyReference; keyReference != nil {
+		container := _this.container
+		keyReference.whenResolved(func(key reflect.Value) {
+			container.SetMapIndex(key, value)
+		})
+		return
+	}
 	_this.container.SetMapIndex(_this.key, value)
 }
 
@@ -241,17 +266,49 @@ func (_this *mapBuilder) BuildBeginMapContents(ctx *Context) {
 }
 
 func (_this *mapBuilder) BuildFromLocalReference(ctx *Context, id []byte) {
+	if _this.builderIndex == kvBuilderKey {
+		_this.buildKeyFromLocalReference(ctx, id)
+		return
+	}
+
 	container := _this.container
 	key := _this.key
+	keyReference := _this.keyReference
 	tempValue := _this.newElem()
 	_this.swapKeyValue()
 	ctx.NotifyLocalReference(id, func(object reflect.Value) {
-		if container.Type().Elem().Kind() == reflect.Interface || object.Type() == container.Type().Elem() {
-			// In case of self-referencing pointers, we need to pass the original container, not a copy.
-			container.SetMapIndex(key, object)
-		} else {
+		value := object
+		if container.Type().Elem().Kind() != reflect.Interface && object.Type() != container.Type().Elem() {
 			setAnythingFromAnything(object, tempValue)
-			container.SetMapIndex(key, tempValue)
+			value = tempValue
+		}
+		// In case of self-referencing pointers, we need to pass the original container, not a copy.
+		if keyReference != nil {
+			keyReference.whenResolved(func(key reflect.Value) {
+				container.SetMapIndex(key, value)
+			})
+		} else {
+			container.SetMapIndex(key, value)
+		}
+	})
+}
+
+func (_this *mapBuilder) buildKeyFromLocalReference(ctx *Context, id []byte) {
+	keyReference := &mapKeyReference{}
+	keyType := _this.kvTypes[kvBuilderKey]
+	tempKey := _this.newElem()
+	_this.keyReference = keyReference
+	_this.swapKeyValue()
+	ctx.NotifyLocalReference(id, func(object reflect.Value) {
+		key := object
+		if keyType.Kind() != reflect.Interface && object.Type() != keyType {
+			setAnythingFromAnything(object, tempKey)
+			key = tempKey
+		}
+		keyReference.key = key
+		keyReference.isResolved = true
+		if keyReference.onResolved != nil {
+			keyReference.onResolved(key)
 		}
 	})
 }
